@@ -78,6 +78,16 @@ class KeplerOrbit:
         o._vtrend, o._barycenter = self._vtrend, self._barycenter
         return o
 
+    def unscaled_radial_velocity(self, time, anomaly_tol=None, anomaly_maxiter=None):
+        """the unit-amplitude Keplerian term RV(t - t0; P, e, omega, M0) (dimensionless), as twobody documents it"""
+        el = self.elements
+        ev = el._e.to_value(units.one) if isinstance(el._e, units.Quantity) else el._e
+        tt = time.tcb._v if isinstance(time, units.Time) else time
+        t0 = el.t0.tcb._v
+        tl = list(tt.a) if isinstance(tt, symnp.SymArray) else [tt]
+        cells = [core.uf("RV", t - t0, el._P.to_value(units.day), ev, el._omega.to_value(units.rad), el._M0.to_value(units.rad)) for t in tl]
+        return symnp.SymArray(symnp._obj(cells), symnp._F8)
+
     def radial_velocity(self, time):
         el = self.elements
         P, e, a = el._P, el._e, el._a
